@@ -423,7 +423,7 @@ func init() {
 	registerCheck(&checkSpec{
 		id: "C13", dirs: []string{"."}, level: "other",
 		jobs: func(tier string) []job {
-			js := []job{J(".", "VX_C13_Redial", 1, 0, 1), J(".", "VX_C13_Redial", 1, 1, 0), J(".", "VX_C13_Redial", 2, 0, 0), J(".", "VX_C13_Redial", 2, 1, 1)}
+			js := []job{J(".", "VX_C13_Redial", 1, 0, 1), J(".", "VX_C13_Redial", 1, 1, 0), J(".", "VX_C13_Redial", 2, 0, 0), J(".", "VX_C13_Redial", 2, 1, 1), J(".", "VX_C13_Redial", 1, 2, 1)}
 			if tier == "thorough" {
 				js = append(js, J(".", "VX_C13_Redial", 9, 0, 1), J(".", "VX_C13_Redial", 2, 0, 1), J(".", "VX_C13_Redial", 1, 0, 0))
 			}
